@@ -211,6 +211,24 @@ func TestTwoHistories(t *testing.T) {
 				pre = append(pre, hist.Op{Kind: "delete", Method: m, Pattern: base})
 			}
 		}
+		// a quarter start with a "hostname family": a label prefix shared by two branches, one of which ends at a label boundary
+		// below which a static label and a parameter label compete; deleting the other branch merges hostname nodes
+		if len(pre) == 0 && gen.Chance(t, 1, 2, "hostfamily") {
+			l := func(tag string) string { return gen.Pick(t, gen.HostLabels, tag) }
+			a, b, c2, d := l("ha"), l("hb"), l("hc"), l("hd")
+			m := gen.Pick(t, methods, "hmethod")
+			tail := gen.Pick(t, []string{"/", "/x", "/{p}"}, "htail")
+			fam := []string{a + "." + b + ".{hf}" + tail, a + "." + b + "." + d + tail, a + "." + c2 + tail}
+			if gen.Chance(t, 1, 2, "hmore") {
+				fam = append(fam, a+"."+b+tail, "{hg}."+a+tail)
+			}
+			for _, p := range fam {
+				pre = append(pre, hist.Op{Kind: "handle", Method: m, Pattern: p})
+			}
+			if gen.Chance(t, 3, 4, "hdrop") {
+				pre = append(pre, hist.Op{Kind: "delete", Method: m, Pattern: gen.Pick(t, fam, "hvictim")})
+			}
+		}
 		n := gen.IntR(t, 3, 40, "nops")
 		for i := 0; i < n+len(pre); i++ {
 			var op hist.Op
